@@ -90,9 +90,17 @@ class Cluster:
         were used during the clustering.
         """
         if self._dimensionality is None:
+            # The radii used in the clustering are given for each atom of the
+            # original system
+            radii = self._radii
+            if radii is None:
+                radii = "covalent"
+            elif not isinstance(radii, str) and len(radii) == len(self._system):
+                radii = np.asarray(radii)[self.indices]
             self._dimensionality = matid.geometry.get_dimensionality(
                 self.get_atoms(),
                 self._bond_threshold,
                 dist_matrix_radii_mic_1x=self._get_distance_matrix_radii_mic(),
+                radii=radii,
             )
         return self._dimensionality
